@@ -119,6 +119,11 @@ def cases(tier, rng):
     for req in range(-5, 34):
         L.append("az 33 %d -" % req)
     L.append("azhl -")
+    # every colour scheme (C11): same modules, pixels only the scheme's two colours
+    for sc in (8, 16, 24, 32):
+        for d in ("-", "41", "48656c6c6f2c20776f726c6421", "80ff00227e"):
+            for req in (0, -3, 7):
+                L.append("azcol %d 33 %d %s" % (sc, req, d))
     # all 256 single bytes
     for b in range(256):
         L.append("azhl %02x" % b)
@@ -242,8 +247,8 @@ def nontrivial(line, impl_out):
     t = line.split(" ")
     if impl_out is None or impl_out.startswith(("PANIC", "UNKNOWN", "CRASH")):
         return False
-    if t[0] in ("az", "azhl"):
-        return t[-1] != "-" or t[0] == "az"
+    if t[0] in ("az", "azhl", "azcol"):
+        return t[-1] != "-" or t[0] != "azhl"
     return True
 
 
@@ -253,7 +258,9 @@ def oracle_lines(lines, impl_outs):
         t = l.split(" ")
         if o is None:
             res.append(None)
-        elif t[0] == "az" and o.startswith("OK "):
+        elif o.split(" ")[0] in ("HANG", "HANG-SKIPPED", "PANIC", "BOTHNIL", "BOTHSET"):
+            res.append("azspechl -")      # dummy oracle call; the verdict is about the implementation
+        elif t[0] in ("az", "azcol") and o.startswith("OK "):
             res.append("azspec " + o.split(" ")[-1])
         elif t[0] == "azhl":
             res.append("azspechl " + o)
@@ -265,7 +272,21 @@ def oracle_lines(lines, impl_outs):
 
 
 def oracle_verdict(line, impl_out, oracle_out):
+    try:
+        return _oracle_verdict(line, impl_out, oracle_out)
+    except Exception as e:      # malformed output of a broken implementation / oracle
+        return "unparsable result (%s): %s" % (type(e).__name__, str(oracle_out)[:80])
+
+
+def _oracle_verdict(line, impl_out, oracle_out):
     t = line.split(" ")
+    head = impl_out.split(" ")[0]
+    if head in ("HANG", "HANG-SKIPPED"):
+        return "the implementation did not return within the time limit (C10: never hangs)"
+    if head in ("PANIC", "BOTHNIL", "BOTHSET"):
+        return "the implementation panicked / broke the (barcode, error) contract: " + head
+    if t[0] == "azcol":
+        t = ["az"] + t[2:]
     if t[0] == "az":
         f = impl_out.split(" ")
         o = oracle_out.split(" ")
@@ -310,6 +331,9 @@ def distribution(lines, impl_outs):
         t = l.split(" ")
         if o is None:
             continue
+        if o.split(" ")[0] in ("HANG", "HANG-SKIPPED", "PANIC", "BOTHNIL", "BOTHSET") or o.startswith(("CRASH", "UNKNOWN")):
+            inc(t[0] + " " + o.split(" ")[0].split("(")[0])
+            continue
         if t[0] == "az":
             if o.startswith("OK "):
                 inc("az ok size " + o.split(" ")[3].split("x")[1])
@@ -318,7 +342,8 @@ def distribution(lines, impl_outs):
             else:
                 inc("az " + o.split(" ")[0] + (" auto" if t[2] == "0" else " explicit"))
         elif t[0] == "azcfg":
-            inc("azcfg " + (o if o == "ERR" else "c%s w%s" % (o.split(" ")[0], o.split(" ")[2])))
+            f = o.split(" ")
+            inc("azcfg " + (o if len(f) != 3 else "c%s w%s" % (f[0], f[2])))
         else:
             inc(t[0])
     return d
@@ -336,3 +361,78 @@ RULE = ("empty payload x 7 ecc percentages and x layer requests -5..33; all 256 
         "Oracle: the extracted ISO reader aztec_read on the implementation's pixels must return the payload and the "
         "requested configuration; the extracted high-level decoder / un-stuffer on the implementation's bit strings. "
         "non-trivial = an encode call (accepted or refused) or a non-empty sub-function input; distinct = distinct case line")
+
+
+# ---- kernel-side sample: the model and the reader evaluated by vm_compute inside Coq
+def _zl(hexs):
+    return "[" + "; ".join(str(b) for b in (bytes.fromhex(hexs) if hexs != "-" else b"")) + "]"
+
+
+def _bl(bits):
+    return "[" + "; ".join("true" if c == "1" else "false" for c in (bits if bits != "-" else "")) + "]"
+
+
+def coq_case(line, impl_out):
+    t = line.split(" ")
+    if impl_out is None or len(impl_out) > 4000:
+        return "KSkip"
+    if t[0] == "az":
+        if abs(int(t[2])) > 40:
+            return "KSkip"
+        if impl_out.startswith("OK "):
+            rows = impl_out.split(" ")[-1].split("/")
+            return "KAz (%s) (%s) %s true (%d) [%s]" % (t[1], t[2], _zl(t[3]), len(rows), "; ".join(_bl(r) for r in rows))
+        if impl_out == "ERR":
+            return "KAz (%s) (%s) %s false 0 []" % (t[1], t[2], _zl(t[3]))
+        return "KSkip"
+    if t[0] == "azhl" and set(impl_out) <= set("01-"):
+        return "KHl %s %s" % (_zl(t[1]), _bl(impl_out))
+    if t[0] == "azstuff" and set(impl_out) <= set("01-"):
+        return "KStuff (%s) %s %s" % (t[1], _bl(t[2]), _bl(impl_out))
+    return "KSkip"
+
+
+KERNEL_HEADER = """From Verif Require Import Prelude Barcode BitListM GFM TabAztec AztecM AztecSpec.
+Inductive kcase :=
+| KAz (pct req : Z) (data : list Z) (ok : bool) (size : Z) (rows : list (list bool))
+| KHl (data : list Z) (bits : list bool)
+| KStuff (w : Z) (bits out : list bool)
+| KSkip.
+Fixpoint bools_eqb (a b : list bool) : bool :=
+  match a, b with
+  | [], [] => true
+  | x :: a', y :: b' => Bool.eqb x y && bools_eqb a' b'
+  | _, _ => false
+  end.
+Fixpoint rows_eqb (a b : list (list bool)) : bool :=
+  match a, b with
+  | [], [] => true
+  | x :: a', y :: b' => bools_eqb x y && rows_eqb a' b'
+  | _, _ => false
+  end.
+Fixpoint zs_eqb (a b : list Z) : bool :=
+  match a, b with
+  | [], [] => true
+  | x :: a', y :: b' => (x =? y) && zs_eqb a' b'
+  | _, _ => false
+  end.
+(* the model reproduces the implementation's result, and the ISO reader decodes the image *)
+Definition case_ok (c : kcase) : bool :=
+  match c with
+  | KAz pct req data ok size rows =>
+    match az_encode data pct req with
+    | Ok bc => ok && (bc_width bc =? size) && (bc_height bc =? size) && rows_eqb (bc_rows bc) rows
+               && match aztec_decode rows with Some d => zs_eqb d data | None => false end
+    | Err => negb ok
+    | _ => false
+    end
+  | KHl data bits =>
+    match az_highlevel data with
+    | Ok b => bools_eqb b bits && match aztec_decode_hl bits with Some d => zs_eqb d data | None => false end
+    | _ => false
+    end
+  | KStuff w bits out =>
+    match az_stuff_bits bits w with Ok o => bools_eqb o out | _ => false end
+  | KSkip => true
+  end.
+"""
